@@ -89,6 +89,22 @@ pub fn chunk_blocks(step: usize) -> Vec<Vec<u8>> {
     res
 }
 
+/// a small epoch-boundary block `[0, [header, [], extra]]` built at the byte level from the
+/// header and extra spans of test_data/genesis.block (whose 650 kB body is a list of stakeholder ids)
+pub fn small_ebb() -> Option<Vec<u8>> {
+    let txt = std::fs::read_to_string(format!("{}/test_data/genesis.block", repo_dir())).ok()?;
+    let b = hex::decode(txt.trim()).ok()?;
+    let top = children(&b, 0)?;
+    if uint_at(&b, top.first()?.0)? != 0 { return None; }
+    let inner = children(&b, top.get(1)?.0)?;
+    if inner.len() != 3 { return None; }
+    let mut out = vec![0x82, 0x00, 0x83];
+    out.extend_from_slice(&b[inner[0].0..inner[0].1]);
+    out.push(0x80);
+    out.extend_from_slice(&b[inner[2].0..inner[2].1]);
+    Some(out)
+}
+
 pub struct RawBlock {
     pub tag: u64,
     /// span of the header item (element 0 of the inner array)
